@@ -706,6 +706,34 @@ func genTimingRead(tier string) []scenario {
 			add("upstream-slow-then-second", "upstream", with(action{Op: "head", K: -1, D: lim.Read + 250}, action{Op: "resp"},
 				action{Op: "head", K: -1}, action{Op: "resp"})...)
 		}
+		// phase 4 (T15_handshake_limits_any_config): stalls inside the PROXY header, the listener handshake and the
+		// two MITM phases with ReadTimeout > 0, on every stack; with ReadTimeout (350) below the handshake limit
+		// (500) a whole-request deadline left armed after the CONNECT head would cut the MITM phases short
+		if tier == "thorough" || li == 1 {
+			for _, st := range stacks {
+				hadd := func(name, phase string, script ...action) {
+					out = append(out, scenario{Name: fmt.Sprintf("%s/rt%d-%s", st.Name, li, name), Stack: st.Name, Script: script, Phase: phase, WaitMs: wait, Lim: lim})
+				}
+				var pre []action
+				with := func(more ...action) []action { return append(append([]action{}, pre...), more...) }
+				if st.PP {
+					hadd("pp-silent", "pphdr")
+					hadd("pp-v1-6", "pphdr", action{Op: "pp", K: 6})
+					pre = append(pre, action{Op: "pp", K: -1})
+				}
+				if st.TLS {
+					hadd("ltls-silent", "ltls", with()...)
+					hadd("ltls-5", "ltls", with(action{Op: "ltls", K: 5})...)
+					pre = append(pre, action{Op: "ltls", K: -1})
+				}
+				if st.MITM {
+					hadd("mitm-peek-silent", "mpeek", with(action{Op: "connect"})...)
+					hadd("mitm-peek-after-exchange", "mpeek", with(action{Op: "head", K: -1}, action{Op: "resp"}, action{Op: "connect"})...)
+					hadd("mitm-tls-5", "mtls", with(action{Op: "connect"}, action{Op: "mtls", K: 5})...)
+					hadd("mitm-tls-late-hello", "mtls", with(action{Op: "connect"}, action{Op: "sleep", D: 250}, action{Op: "mtls", K: 5})...)
+				}
+			}
+		}
 	}
 	return out
 }
